@@ -23,10 +23,6 @@ from harness import framework, tlc, c16
 
 CABI = os.path.join(tlc.VERIF, "corpus", "cabi", "cabi.ndjson")
 
-WHAT = {  # one line per named deviation (also the text of known_findings.d/C16.json)
-}
-
-
 def _gen(cfg, kind, seed, simulate, depth, workers, wd, out):
     spool = os.path.join(wd, kind + ".spool")
     try:
@@ -51,6 +47,19 @@ def _tref(rows, shard, wd, out):
 
 def run(ctx):
     quick = ctx.tier == "quick"
+    if ctx.replay:
+        # re-execute one recorded case (it carries the values TLC computed) against the current tree
+        with open(ctx.replay) as f:
+            rec = json.load(f)
+        case = rec["case"]["case"]
+        fails, tags = c16.replay_case(case)
+        ctx.case(key=c16.shape(case))
+        ctx.trace(1)
+        ctx.sample({"ps": case["ps"], "decls": case["decls"], "clauses_ok": sorted(tags)})
+        ctx.rule = "replay of one recorded case"
+        for key, what in fails:
+            ctx.fail(key, what, {"source": "replay", "case": case})
+        return
     ctx.rule = ("one case = one definition (text in amoco's definition language) x pointer size x value class, built "
                 "with StructFactory/UnionFactory/TypeDefine and observed through size, align_value, offsets, unpack, "
                 "pack; non-trivial = has an array, nested definition, bitfield unit, variable-length member, is a union, "
@@ -146,8 +155,8 @@ def run(ctx):
         for k, c in o["kinds"].items():
             ctx.count("members_" + k, c)
         ctx.count("cases_without_any_deviation", o["clean"])
-        for key, what, slim in o["fails"]:
-            ctx.fail(key, what, {"source": kind, "case": slim})
+        for key, what, full in o["fails"]:
+            ctx.fail(key, what, {"source": kind, "case": full})
         if o["sample"] is not None:
             ctx.sample(o["sample"], cap=5)
     for kind, n in per.items():
